@@ -54,6 +54,7 @@ var (
 	// mapRanges: "file:offset of for" of range statements over maps
 	mapRanges   = map[string]bool{}
 	mapRewrites int
+	goStmts     int // go statements in the tree under test (their goroutines are not scheduled by the simulator)
 )
 
 func main() {
@@ -284,6 +285,12 @@ func main() {
 			b := fset.Position(rs.For).Offset
 			e := fset.Position(rs.Body.Lbrace).Offset + 1
 			ins = append(ins, insertion{off: b, text: "\x00" + fmt.Sprint(e-b) + "\x00" + hdr, ord: 1 << 30})
+			return true
+		})
+		ast.Inspect(f, func(n ast.Node) bool {
+			if _, ok := n.(*ast.GoStmt); ok {
+				goStmts++
+			}
 			return true
 		})
 		// yields
@@ -841,6 +848,7 @@ var VerifSites = []VerifSite{
 		fmt.Fprintf(&b, "\t{%q, %d, %q, %v, %v},\n", s.file, s.line, s.fn, s.hot, s.sync)
 	}
 	b.WriteString("}\n")
+	fmt.Fprintf(&b, "\n// VerifGoStmts is the number of go statements in the tree under test (their\n// goroutines are not scheduled by the simulator).\nconst VerifGoStmts = %d\n", goStmts)
 	if err := os.WriteFile(filepath.Join(dir, "zz_verif_hooks.go"), b.Bytes(), 0o644); err != nil {
 		fatal(err)
 	}
